@@ -40,6 +40,7 @@
 #include <cstdlib>
 #include <fstream>
 #include <memory>
+#include <type_traits>
 #include <random>
 #include <string>
 #include <thread>
@@ -60,17 +61,72 @@ static inline uint64_t stamp()
 }
 
 // ---------------------------------------------------------------------------
-// payloads: an element is <<producer, seq>>, a value is an integer; both are mapped
-// injectively to a trivially copyable type and to a heap-owning std::string
+// payloads: an element is <<producer, seq>>, a value is an integer index; both are mapped injectively to
+//   "int"  IntElem (8 bytes) / int (word-sized; signs alternate)          trivially copyable
+//   "str"  std::string: short (small-string buffer), 40+ and 300+ characters (heap), with NUL and >= 0x80 bytes
+//   "w24"  three 64-bit words = 24 bytes (wider than a word, not a power of two), self-checking
+//   "oa"   64 bytes, alignas(64), self-checking                           (TransactionalValue only)
+//   "uptr" std::unique_ptr<IntElem>: move-only                             (TransactionalBuffer only, rvalue push_back)
+//   "thr"  heap-owning, copy constructor / copy assignment throw when the calling thread armed the fuse
+// Decoding re-encodes and compares: anything that is not exactly an encoded value is reported as -1.
 struct IntElem
 {
   int p;
   int s;
 };
 
-static std::string pad(const std::string &s)
+struct W24
 {
-  return s + std::string(40, '#');  // far beyond any small-string buffer: the payload owns heap memory
+  int64_t a, b, c;
+  bool operator==(const W24 &o) const { return a == o.a && b == o.b && c == o.c; }
+};
+static_assert(sizeof(W24) == 24, "W24 must be 24 bytes");
+
+struct alignas(64) OA64
+{
+  int v;
+  int pad[14];
+  int w;
+  bool operator==(const OA64 &o) const { return v == o.v && w == o.w; }
+};
+static_assert(sizeof(OA64) == 64 && alignof(OA64) == 64, "OA64 must be 64 bytes, 64-aligned");
+
+static thread_local int g_fuse = 0;  // > 0: the next copy of a Thr made by this thread throws
+struct CopyFailed {};
+struct Thr
+{
+  std::string s;
+  Thr() {}
+  explicit Thr(const std::string &x) : s(x) {}
+  static const std::string &src(const std::string &x)
+  {
+    if (g_fuse > 0) { g_fuse = 0; throw CopyFailed(); }
+    return x;
+  }
+  Thr(const Thr &o) : s(src(o.s)) {}
+  Thr(Thr &&o) noexcept : s(std::move(o.s)) {}
+  Thr &operator=(const Thr &o)
+  {
+    if (g_fuse > 0) { g_fuse = 0; throw CopyFailed(); }  // before anything is modified
+    s = o.s;
+    return *this;
+  }
+  Thr &operator=(Thr &&o) noexcept { s = std::move(o.s); return *this; }
+  bool operator==(const Thr &o) const { return s == o.s; }
+};
+
+typedef std::unique_ptr<IntElem> UPtr;
+
+// string content classes (k = 0..3): small-string, heap, heap with NUL / high bytes (also first-after-prefix and last
+// position), long
+static std::string strBody(const std::string &head, int k)
+{
+  switch (k & 3) {
+  case 0: return head;
+  case 1: return head + std::string(40, '#');
+  case 2: return head + std::string("\0\xff\x80\x01\x7f", 5) + std::string(30, '~') + std::string("\xfe\0", 2);
+  default: return head + std::string(300, 'x');
+  }
 }
 
 template <typename T>
@@ -79,6 +135,7 @@ struct Codec;
 template <>
 struct Codec<IntElem>
 {
+  static const bool copyable = true;
   static IntElem elem(int p, int s) { IntElem e; e.p = p; e.s = s; return e; }
   static void unelem(const IntElem &e, int &p, int &s) { p = e.p; s = e.s; }
 };
@@ -86,34 +143,124 @@ struct Codec<IntElem>
 template <>
 struct Codec<int>
 {
-  static int value(int v) { return v; }
-  static long unvalue(const int &v) { return v; }
+  // value index v -> v (odd) / -v (even): negative values are ordinary values
+  static int value(int v) { return (v & 1) ? v : -v; }
+  static long unvalue(const int &x)
+  {
+    if (x == 0) return 0;
+    if (x > 0) return (x & 1) ? x : -1;
+    return ((-x) & 1) ? -1 : -(long)x;
+  }
 };
 
 template <>
 struct Codec<std::string>
 {
-  static std::string elem(int p, int s) { return pad("e:" + std::to_string(p) + ":" + std::to_string(s) + ":"); }
+  static const bool copyable = true;
+  static std::string elem(int p, int s) { return strBody("e:" + std::to_string(p) + ":" + std::to_string(s) + ":", p + s); }
   static void unelem(const std::string &e, int &p, int &s)
   {
-    // decode and re-encode: anything that is not exactly an encoded element is reported as <<-1,-1>>
     int pp = -1, ss = -1;
     if (sscanf(e.c_str(), "e:%d:%d:", &pp, &ss) == 2 && elem(pp, ss) == e) { p = pp; s = ss; }
     else { p = -1; s = -1; }
   }
-  static std::string value(int v) { return pad("v:" + std::to_string(v) + ":"); }
+  static std::string value(int v) { return strBody("v:" + std::to_string(v) + ":", v); }
   static long unvalue(const std::string &e)
   {
     int vv = -1;
-    if (sscanf(e.c_str(), "v:%d:", &vv) == 1 && value(vv) == e) return vv;
-    return -1;  // not a value anybody assigned (e.g. a moved-from string)
+    if (sscanf(e.c_str(), "v:%d:", &vv) == 1 && vv >= 0 && value(vv) == e) return vv;
+    return -1;  // not a value anybody assigned (e.g. a moved-from or truncated string)
   }
 };
 
+template <>
+struct Codec<W24>
+{
+  static const bool copyable = true;
+  static W24 mk(int64_t a, int64_t b) { W24 w; w.a = a; w.b = b; w.c = (a * 1000003) ^ (b * 7919) ^ 0x5a5a5a5a5a5a5a5aLL; return w; }
+  static W24 elem(int p, int s) { return mk(p, s); }
+  static void unelem(const W24 &e, int &p, int &s)
+  {
+    if (mk(e.a, e.b) == e) { p = (int)e.a; s = (int)e.b; } else { p = -1; s = -1; }
+  }
+  static W24 value(int v) { return mk(v, ~(int64_t)v); }
+  static long unvalue(const W24 &e) { return (mk(e.a, e.b) == e && e.b == ~e.a && e.a >= 0) ? (long)e.a : -1; }
+};
+
+template <>
+struct Codec<OA64>
+{
+  static OA64 value(int v)
+  {
+    OA64 o;
+    o.v = v;
+    for (int i = 0; i < 14; ++i) o.pad[i] = v * 31 + i;
+    o.w = ~v;
+    return o;
+  }
+  static long unvalue(const OA64 &e)
+  {
+    if (e.w != ~e.v || e.v < 0) return -1;
+    for (int i = 0; i < 14; ++i) if (e.pad[i] != e.v * 31 + i) return -1;
+    return e.v;
+  }
+};
+
+template <>
+struct Codec<Thr>
+{
+  static const bool copyable = true;
+  static Thr elem(int p, int s) { return Thr(Codec<std::string>::elem(p, s)); }
+  static void unelem(const Thr &e, int &p, int &s) { Codec<std::string>::unelem(e.s, p, s); }
+  static Thr value(int v) { return Thr(Codec<std::string>::value(v)); }
+  static long unvalue(const Thr &e) { return Codec<std::string>::unvalue(e.s); }
+};
+
+template <>
+struct Codec<UPtr>
+{
+  static const bool copyable = false;
+  static UPtr elem(int p, int s) { UPtr u(new IntElem); u->p = p; u->s = s; return u; }
+  static void unelem(const UPtr &e, int &p, int &s)
+  {
+    if (e) { p = e->p; s = e->s; } else { p = -1; s = -1; }
+  }
+};
+
+// push_back(const T&) only exists for copyable payloads; move-only ones always take the rvalue overload
+template <typename T>
+static void pushOne(rkcommon::containers::TransactionalBuffer<T> &buf, T &x, bool mv, std::true_type)
+{
+  if (mv) buf.push_back(std::move(x)); else buf.push_back(x);
+}
+template <typename T>
+static void pushOne(rkcommon::containers::TransactionalBuffer<T> &buf, T &x, bool, std::false_type)
+{
+  buf.push_back(std::move(x));
+}
+template <typename T>
+static void pushOne(rkcommon::containers::TransactionalBuffer<T> &buf, T &x, bool mv)
+{
+  pushOne(buf, x, mv, std::integral_constant<bool, Codec<T>::copyable>());
+}
+
+// assignment through a second OtherType where the payload has one (operator= is a template over OtherType):
+// int from long, std::string from const char* (only for contents without NUL bytes)
+template <typename T>
+static void assignOne(rkcommon::utility::TransactionalValue<T> &tv, const T &x, int) { tv = x; }
+static void assignOne(rkcommon::utility::TransactionalValue<int> &tv, const int &x, int v)
+{
+  if (v % 3 == 0) { long y = x; tv = y; } else tv = x;
+}
+static void assignOne(rkcommon::utility::TransactionalValue<std::string> &tv, const std::string &x, int v)
+{
+  if (v % 3 == 0 && x.find('\0') == std::string::npos) tv = x.c_str(); else tv = x;
+}
+
 // ---------------------------------------------------------------------------
 // call records (per-thread logs, no sharing)
-enum Op { PUSH, CONSUME, SIZE, EMPTY, ASSIGN, UPDATE, GET, BPUSH, BURST };
-static const char *opName[] = {"push", "consume", "size", "empty", "assign", "update", "get", "bpush", "burst"};
+enum Op { PUSH, CONSUME, SIZE, EMPTY, ASSIGN, UPDATE, GET, BPUSH, BURST, PUSHX, ASSIGNX };
+static const char *opName[] = {"push", "consume", "size", "empty", "assign", "update", "get", "bpush", "burst", "pushx", "assignx"};
 
 struct Call
 {
@@ -127,17 +274,22 @@ struct Call
   bool b = false;         // empty / update
   long v = 0;             // assign / get
   bool viaRef = false;    // get through ref()
+  bool threw = false;     // pushx / assignx: the call ended with the payload's exception
+  int o = 0;              // object number (histories over several objects)
 };
 
 static Json toJson(const Call &c)
 {
   Json j = Json::object();
   j.set("t", c.t);
+  if (c.o) j.set("o", c.o);
   j.set("op", opName[c.op]);
   j.set("inv", (unsigned long long)c.inv);
   j.set("res", (unsigned long long)c.res);
   switch (c.op) {
+  case PUSHX:
   case PUSH: {
+    if (c.op == PUSHX) j.set("threw", c.threw);
     Json v = Json::array();
     v.push(c.p); v.push(c.s);
     j.set("v", v);
@@ -169,6 +321,7 @@ static Json toJson(const Call &c)
   case SIZE: j.set("n", c.n); break;
   case EMPTY: j.set("b", c.b); break;
   case ASSIGN: j.set("v", c.v); break;
+  case ASSIGNX: j.set("v", c.v); j.set("threw", c.threw); break;
   case UPDATE: j.set("ret", c.b); break;
   case GET: j.set("v", c.v); j.set("ref", c.viaRef); break;
   case BPUSH: j.set("p", c.p); j.set("first", c.s); j.set("n", c.n); break;   // n push_backs of <<p,first>>, <<p,first+1>>, ...
@@ -196,8 +349,35 @@ static void doPush(rkcommon::containers::TransactionalBuffer<T> &buf, Log &log, 
   Call c; c.t = t; c.op = PUSH; c.p = p; c.s = s; c.mv = mv;
   T x = Codec<T>::elem(p, s);
   c.inv = stamp();
-  if (mv) buf.push_back(std::move(x)); else buf.push_back(x);
+  pushOne(buf, x, mv);
   c.res = stamp();
+  log.push_back(c);
+}
+
+// push_back(const T&) / operator= whose copy of the payload throws (the calling thread arms the fuse)
+template <typename T>
+static void doPushThrow(rkcommon::containers::TransactionalBuffer<T> &buf, Log &log, int t, int p, int s)
+{
+  Call c; c.t = t; c.op = PUSHX; c.p = p; c.s = s;
+  T x = Codec<T>::elem(p, s);
+  g_fuse = 1;
+  c.inv = stamp();
+  try { buf.push_back(x); } catch (const CopyFailed &) { c.threw = true; }
+  c.res = stamp();
+  g_fuse = 0;
+  log.push_back(c);
+}
+
+template <typename T>
+static void doAssignThrow(rkcommon::utility::TransactionalValue<T> &tv, Log &log, int t, int v)
+{
+  Call c; c.t = t; c.op = ASSIGNX; c.v = v;
+  T x = Codec<T>::value(v);
+  g_fuse = 1;
+  c.inv = stamp();
+  try { tv = x; } catch (const CopyFailed &) { c.threw = true; }
+  c.res = stamp();
+  g_fuse = 0;
   log.push_back(c);
 }
 
@@ -240,7 +420,7 @@ static void doAssign(rkcommon::utility::TransactionalValue<T> &tv, Log &log, int
   Call c; c.t = t; c.op = ASSIGN; c.v = v;
   T x = Codec<T>::value(v);
   c.inv = stamp();
-  tv = x;
+  assignOne(tv, x, v);
   c.res = stamp();
   log.push_back(c);
 }
@@ -277,7 +457,7 @@ static void doBurstPush(rkcommon::containers::TransactionalBuffer<T> &buf, Log &
   c.inv = stamp();
   for (long i = 0; i < n; ++i) {
     T x = Codec<T>::elem(p, first + (int)i);
-    if (i & 1) buf.push_back(std::move(x)); else buf.push_back(x);
+    pushOne(buf, x, (i & 1) != 0);
   }
   c.res = stamp();
   log.push_back(c);
@@ -305,25 +485,40 @@ static Json dumpLogs(const std::vector<Log> &logs)
 
 // ---------------------------------------------------------------------------
 // concurrent scenarios
+// start barrier: "spin": busy-wait (the threads leave it within a few cycles of each other), else yield
+static inline void awaitGo(std::atomic<bool> &go, bool spin)
+{
+  if (spin) {
+    long n = 0;
+    while (!go.load()) { if (++n > 20000000L) std::this_thread::yield(); }
+  } else {
+    while (!go.load()) std::this_thread::yield();
+  }
+}
+
 template <typename T>
 static Json concBuf(const Json &sc)
 {
   const int P = (int)sc["P"].num(), K = (int)sc["K"].num(), M = (int)sc["M"].num();
   const int pj = (int)sc["pj"].num(), cj = (int)sc["cj"].num();
   const unsigned seed = (unsigned)sc["seed"].num();
+  const bool spin = sc["spin"].boolean();
+  const int pre = (int)sc["pre"].num();   // start state: producer 1 has already pushed `pre` elements (1, or size == capacity)
   rkcommon::containers::TransactionalBuffer<T> buf;
-  std::vector<Log> logs(P + 2);
+  std::vector<Log> logs(P + 3);
   std::atomic<int> ready{0};
   std::atomic<bool> go{false};
   std::vector<std::thread> th;
+  for (int s = 1; s <= pre; ++s) doPush(buf, logs[P + 2], 1, 1, s, (s & 1) != 0);
   for (int p = 1; p <= P; ++p) {
     th.emplace_back([&, p]() {
       std::mt19937 r(seed * 7919u + (unsigned)p);
       Log &log = logs[p];
       log.reserve(K);
       ready.fetch_add(1);
-      while (!go.load()) std::this_thread::yield();
-      for (int s = 1; s <= K; ++s) {
+      awaitGo(go, spin);
+      const int first = (p == 1 ? pre : 0) + 1;
+      for (int s = first; s < first + K; ++s) {
         jitter(r, pj);
         doPush(buf, log, p, p, s, (r() & 1u) != 0);
       }
@@ -334,7 +529,7 @@ static Json concBuf(const Json &sc)
     Log &log = logs[0];
     log.reserve(M);
     ready.fetch_add(1);
-    while (!go.load()) std::this_thread::yield();
+    awaitGo(go, spin);
     for (int m = 0; m < M; ++m) {
       jitter(r, cj);
       unsigned x = r() % 10u;
@@ -362,23 +557,29 @@ static Json concVal(const Json &sc)
   const int pj = (int)sc["pj"].num(), cj = (int)sc["cj"].num();
   const unsigned seed = (unsigned)sc["seed"].num();
   const bool defaultCtor = sc["ctor"].str() == "default";
+  const bool spin = sc["spin"].boolean();
+  const int pre = (int)sc["pre"].num();   // start state: 0 fresh, 1 one value assigned and pending, 2 assigned and installed (consumer caught up)
   typedef rkcommon::utility::TransactionalValue<T> TV;
   // "value": constructed from the initial value 0; "default": default-constructed, and the
   // consumer does not read the (unspecified) content before the first successful update()
-  std::unique_ptr<TV> tvp(defaultCtor ? new TV() : new TV(Codec<T>::value(0)));
-  TV &tv = *tvp;
-  std::vector<Log> logs(3);
+  TV tvDefault;
+  TV tvValue(Codec<T>::value(0));
+  TV &tv = defaultCtor ? tvDefault : tvValue;
+  std::vector<Log> logs(4);
   std::atomic<int> ready{0};
   std::atomic<bool> go{false};
   std::atomic<bool> pdone{false};
   bool readable = !defaultCtor;  // consumer-side only
+  int first = 1;
+  if (pre >= 1) { doAssign(tv, logs[3], 1, 1); first = 2; }
+  if (pre >= 2) { if (doUpdate(tv, logs[3], 0)) readable = true; if (readable) doGet(tv, logs[3], 0, false); }
   std::thread prod([&]() {
     std::mt19937 r(seed * 7919u + 1u);
     Log &log = logs[1];
     log.reserve(N);
     ready.fetch_add(1);
-    while (!go.load()) std::this_thread::yield();
-    for (int v = 1; v <= N; ++v) {
+    awaitGo(go, spin);
+    for (int v = first; v < first + N; ++v) {
       jitter(r, pj);
       doAssign(tv, log, 1, v);
     }
@@ -389,7 +590,7 @@ static Json concVal(const Json &sc)
     Log &log = logs[0];
     log.reserve(2 * M);
     ready.fetch_add(1);
-    while (!go.load()) std::this_thread::yield();
+    awaitGo(go, spin);
     for (int m = 0; m < M; ++m) {
       jitter(r, cj);
       if (doUpdate(tv, log, 0)) readable = true;
@@ -418,8 +619,8 @@ static Json concVal(const Json &sc)
 // round (update()+get(), resp. size()+consume()+empty()) - the producer "stops at the boundary" for that poll.
 struct BurstCtl
 {
-  std::atomic<long> reqGen{0}, ackGen{0}, relGen{0}, polls{0};
-  std::atomic<bool> pollWanted{false}, pdone{false}, go{false};
+  std::atomic<long> reqGen{0}, ackGen{0}, relGen{0}, polls{0}, pollTarget{0};
+  std::atomic<bool> pdone{false}, go{false};
   std::atomic<int> ready{0};
 };
 
@@ -447,11 +648,10 @@ static void runPhases(const Json &phases, BurstCtl &ctl, std::mt19937 &r, int pj
       long target = ctl.polls.load() + 1;
       burst(n);
       const bool wait = ph["wait"].boolean();
-      if (wait) ctl.pollWanted.store(true);
+      if (wait) ctl.pollTarget.store(target);   // exactly one more poll round is asked for
       ctl.relGen.store(g);
       if (wait) {
         while (ctl.polls.load() < target) std::this_thread::yield();
-        ctl.pollWanted.store(false);
       }
     }
   }
@@ -486,7 +686,7 @@ static Json burstVal(const Json &sc)
     for (;;) {
       consumerPausePoint(ctl);
       if (ctl.pdone.load()) break;
-      if (rounds < M || ctl.pollWanted.load()) {
+      if (rounds < M || ctl.polls.load() < ctl.pollTarget.load()) {
         jitter(r, cj);
         doUpdate(tv, log, 0);
         doGet(tv, log, 0, (r() & 3u) == 0);
@@ -544,7 +744,7 @@ static Json burstBuf(const Json &sc)
     for (;;) {
       consumerPausePoint(ctl);
       if (ctl.pdone.load()) break;
-      if (rounds < M || ctl.pollWanted.load()) {
+      if (rounds < M || ctl.polls.load() < ctl.pollTarget.load()) {
         jitter(r, cj);
         doSize(buf, log, 0);
         doConsume(buf, log, 0);
@@ -567,55 +767,127 @@ static Json burstBuf(const Json &sc)
 
 // ---------------------------------------------------------------------------
 // sequential histories generated by TLC
+// Steps may name an object ("o": 0, 1, ...): histories over several instances used by one thread, interleaved.
+// Every object gets its own closing calls; the orchestrator validates each object's calls as one execution.
+template <typename T>
+static void seqBufThrow(rkcommon::containers::TransactionalBuffer<T> &buf, Log &log, int p, int s, std::true_type) { doPushThrow(buf, log, p, p, s); }
+template <typename T>
+static void seqBufThrow(rkcommon::containers::TransactionalBuffer<T> &, Log &, int, int, std::false_type) {}
+
 template <typename T>
 static Json seqBuf(const Json &sc)
 {
-  rkcommon::containers::TransactionalBuffer<T> buf;
+  const int nobj = sc.has("objs") ? (int)sc["objs"].num() : 1;
+  std::vector<std::unique_ptr<rkcommon::containers::TransactionalBuffer<T>>> bufs;
+  for (int i = 0; i < nobj; ++i) bufs.emplace_back(new rkcommon::containers::TransactionalBuffer<T>());
   std::vector<Log> logs(1);
   Log &log = logs[0];
-  std::vector<int> next(16, 0);
+  std::vector<std::vector<int>> next(nobj, std::vector<int>(16, 0));
   const Json &h = sc["h"];
   for (size_t i = 0; i < h.size(); ++i) {
     const std::string &a = h[i]["a"].str();
+    const Json &arg = h[i]["arg"];
+    const int o = arg.has("o") ? (int)arg["o"].num() : 0;
+    rkcommon::containers::TransactionalBuffer<T> &buf = *bufs[o];
+    const size_t k0 = log.size();
     if (a == "Push") {
-      int p = (int)h[i]["arg"]["p"].num();
-      doPush(buf, log, p, p, ++next[p & 15], h[i]["arg"]["mv"].boolean());
+      int p = (int)arg["p"].num();
+      doPush(buf, log, p, p, ++next[o][p & 15], arg["mv"].boolean());
+    } else if (a == "PushThrow") {
+      // the copy of the element throws inside push_back(const T&); the sequence number is not reused
+      int p = (int)arg["p"].num();
+      seqBufThrow(buf, log, p, ++next[o][p & 15], std::is_same<T, Thr>());
     } else if (a == "BurstPush") {
-      int p = (int)h[i]["arg"]["p"].num();
-      long n = (long)h[i]["arg"]["n"].num();
-      doBurstPush(buf, log, p, p, next[p & 15] + 1, n);
-      next[p & 15] += (int)n;
+      int p = (int)arg["p"].num();
+      long n = (long)arg["n"].num();
+      doBurstPush(buf, log, p, p, next[o][p & 15] + 1, n);
+      next[o][p & 15] += (int)n;
     } else if (a == "Consume") doConsume(buf, log, 0);
     else if (a == "Size") doSize(buf, log, 0);
     else if (a == "Empty") doEmpty(buf, log, 0);
+    for (size_t k = k0; k < log.size(); ++k) log[k].o = o;
   }
-  doConsume(buf, log, 0);
-  doSize(buf, log, 0);
-  doEmpty(buf, log, 0);
+  for (int o = 0; o < nobj; ++o) {
+    const size_t k0 = log.size();
+    doConsume(*bufs[o], log, 0);
+    doSize(*bufs[o], log, 0);
+    doEmpty(*bufs[o], log, 0);
+    for (size_t k = k0; k < log.size(); ++k) log[k].o = o;
+  }
   return dumpLogs(logs);
+}
+
+template <typename T>
+static void seqValThrow(rkcommon::utility::TransactionalValue<T> &tv, Log &log, int v, std::true_type) { doAssignThrow(tv, log, 1, v); }
+template <typename T>
+static void seqValThrow(rkcommon::utility::TransactionalValue<T> &, Log &, int, std::false_type) {}
+
+// objects of over-aligned types on the heap (C++11 operator new ignores the alignment)
+template <typename X>
+struct AlignedDel
+{
+  void operator()(X *p) const { p->~X(); free(p); }
+};
+template <typename X, typename A>
+static std::unique_ptr<X, AlignedDel<X>> makeAligned(const A &a)
+{
+  void *m = nullptr;
+  if (posix_memalign(&m, alignof(X) < sizeof(void *) ? sizeof(void *) : alignof(X), sizeof(X))) abort();
+  return std::unique_ptr<X, AlignedDel<X>>(new (m) X(a));
+}
+
+// tv = other (operator=(const TransactionalValue<T>&)): only instantiated in the probe build
+template <typename T>
+static void doAssignFrom(rkcommon::utility::TransactionalValue<T> &tv, rkcommon::utility::TransactionalValue<T> &src, Log &log, int t)
+{
+  Call c; c.t = t; c.op = ASSIGN;
+  c.v = Codec<T>::unvalue(src.ref());   // the value the source holds: that is what the assignment queues
+#ifdef HANDOFF_PROBE_TV_COPY_ASSIGN
+  c.inv = stamp();
+  tv = src;
+  c.res = stamp();
+  log.push_back(c);
+#else
+  (void)tv; (void)log; (void)c;
+#endif
 }
 
 template <typename T>
 static Json seqVal(const Json &sc)
 {
-  rkcommon::utility::TransactionalValue<T> tv(Codec<T>::value(0));
+  typedef rkcommon::utility::TransactionalValue<T> TV;
+  const int nobj = sc.has("objs") ? (int)sc["objs"].num() : 1;
+  // value indices: object o assigns 1000*o + 1, 1000*o + 2, ... (distinct over all objects); initial value 0
+  std::vector<std::unique_ptr<TV, AlignedDel<TV>>> tvs;
+  for (int i = 0; i < nobj; ++i) tvs.push_back(makeAligned<TV>(Codec<T>::value(0)));
   std::vector<Log> logs(1);
   Log &log = logs[0];
-  int next = 0;
+  std::vector<int> next(nobj, 0);
   const Json &h = sc["h"];
   for (size_t i = 0; i < h.size(); ++i) {
     const std::string &a = h[i]["a"].str();
-    if (a == "Assign") doAssign(tv, log, 1, ++next);
+    const Json &arg = h[i]["arg"];
+    const int o = arg.has("o") ? (int)arg["o"].num() : 0;
+    TV &tv = *tvs[o];
+    const size_t k0 = log.size();
+    if (a == "Assign") doAssign(tv, log, 1, 1000 * o + (++next[o]));
+    else if (a == "AssignThrow") seqValThrow(tv, log, 1000 * o + (++next[o]), std::is_same<T, Thr>());
+    else if (a == "AssignFrom") doAssignFrom(tv, *tvs[(int)arg["from"].num()], log, 1);
     else if (a == "Burst") {
-      long n = (long)h[i]["arg"]["n"].num();
-      doBurstAssign(tv, log, 1, next + 1, n);
-      next += (int)n;
+      long n = (long)arg["n"].num();
+      doBurstAssign(tv, log, 1, 1000 * o + next[o] + 1, n);
+      next[o] += (int)n;
     }
     else if (a == "Update") doUpdate(tv, log, 0);
-    else if (a == "Get") doGet(tv, log, 0, h[i]["arg"]["ref"].boolean());
+    else if (a == "Get") doGet(tv, log, 0, arg["ref"].boolean());
+    for (size_t k = k0; k < log.size(); ++k) log[k].o = o;
   }
-  doUpdate(tv, log, 0);
-  doGet(tv, log, 0, false);
+  for (int o = 0; o < nobj; ++o) {
+    const size_t k0 = log.size();
+    doUpdate(*tvs[o], log, 0);
+    doGet(*tvs[o], log, 0, false);
+    for (size_t k = k0; k < log.size(); ++k) log[k].o = o;
+  }
   return dumpLogs(logs);
 }
 
@@ -668,16 +940,24 @@ int main(int argc, char **argv)
     Json sc = vj::parse(line);
     g_curId = sc["id"].num();
     const std::string &kind = sc["kind"].str(), &obj = sc["obj"].str();
-    const bool str = sc["payload"].str() == "str";
+    const std::string &pl = sc["payload"].str();
     alarm((unsigned)timeoutS);
     Json calls;
-    if (kind == "conc" && obj == "buf") calls = str ? concBuf<std::string>(sc) : concBuf<IntElem>(sc);
-    else if (kind == "conc" && obj == "val") calls = str ? concVal<std::string>(sc) : concVal<int>(sc);
-    else if (kind == "burst" && obj == "buf") calls = str ? burstBuf<std::string>(sc) : burstBuf<IntElem>(sc);
-    else if (kind == "burst" && obj == "val") calls = str ? burstVal<std::string>(sc) : burstVal<int>(sc);
-    else if (kind == "seq" && obj == "buf") calls = str ? seqBuf<std::string>(sc) : seqBuf<IntElem>(sc);
-    else if (kind == "seq" && obj == "val") calls = str ? seqVal<std::string>(sc) : seqVal<int>(sc);
-    else { fprintf(stderr, "unknown scenario %s/%s\n", kind.c_str(), obj.c_str()); return 2; }
+    bool known = true;
+#define BUF_DISPATCH(FN)                                             \
+  (pl == "int" ? FN<IntElem>(sc) : pl == "str" ? FN<std::string>(sc) : pl == "w24" ? FN<W24>(sc) \
+   : pl == "uptr" ? FN<UPtr>(sc) : pl == "thr" ? FN<Thr>(sc) : (known = false, Json()))
+#define VAL_DISPATCH(FN)                                             \
+  (pl == "int" ? FN<int>(sc) : pl == "str" ? FN<std::string>(sc) : pl == "w24" ? FN<W24>(sc) \
+   : pl == "oa" ? FN<OA64>(sc) : pl == "thr" ? FN<Thr>(sc) : (known = false, Json()))
+    if (kind == "conc" && obj == "buf") calls = BUF_DISPATCH(concBuf);
+    else if (kind == "conc" && obj == "val") calls = VAL_DISPATCH(concVal);
+    else if (kind == "burst" && obj == "buf") calls = BUF_DISPATCH(burstBuf);
+    else if (kind == "burst" && obj == "val") calls = VAL_DISPATCH(burstVal);
+    else if (kind == "seq" && obj == "buf") calls = BUF_DISPATCH(seqBuf);
+    else if (kind == "seq" && obj == "val") calls = VAL_DISPATCH(seqVal);
+    else known = false;
+    if (!known) { fprintf(stderr, "unknown scenario %s/%s/%s\n", kind.c_str(), obj.c_str(), pl.c_str()); return 2; }
     alarm(0);
     Json r = Json::object();
     r.set("id", sc["id"]);
